@@ -125,7 +125,21 @@ def run(chk):
             for tp in traces:
                 f.write(open(tp).read())
         acc, rej = validate_batches(chk, merged, curve)
+        byid = {j["id"]: j for j in tjobs}
         for rj in rej:
+            ev = rj.get("event", {})
+            job = byid.get(ev.get("job"))
+            if ev.get("ev") == "batch" and ev.get("res") == "ok" and job is not None:
+                # the batch accepted although a member is rejected on its own and the specification's weighted sum of ITS residuals does not
+                # vanish. On a 79- or 31723-element group that can still be a coincidence of the code's own (possibly differently weighted)
+                # residuals under these weights: draw other weights. Luck does not repeat; a batch rule that lets invalid members through does.
+                again = []
+                for k in (1, 2):
+                    rows2, _ = run_jobs(chk, curve, [dict(job, seed=job["seed"] + 7919 * k, id=job["id"] + "-w%d" % k)])
+                    again.append(rows2[0]["batch"] == "ok")
+                if not all(again):
+                    chk.cov["lucky_batch_accepts_explained"] = chk.cov.get("lucky_batch_accepts_explained", 0) + 1
+                    continue
             chk.violation("batch-trace-%s-%d" % (curve, len(chk.violations)), rj, "batch trace rejected: %s" % rj.get("reason", ""))
         # (panics on toy curves come from zero challenges - inverse().unwrap() - and are degenerate events; the 256-bit runs police panics)
     chk.finish(
